@@ -1,7 +1,7 @@
 #!/bin/bash
 # usage: seedverify.sh <PROP>   — confirms every seeded change of /tmp/seed-<PROP>-out in its worktree /tmp/seed-<PROP>:
 # builds, existing tests pass, demo fails with the change and passes without.  Writes /tmp/seed-<PROP>-out/<i>/confirm.txt
-P=$1; WT=/tmp/seed-$P; OUT=/tmp/seed-$P-out
+P=$1; PFX=${SEEDPFX:-seed}; WT=/tmp/$PFX-$P; OUT=/tmp/$PFX-$P-out
 cd $WT || exit 1
 export CARGO_NET_OFFLINE=true
 for d in $OUT/[0-9]*; do
